@@ -96,25 +96,23 @@ def run(ctx):
         ci = mod.classes[cname]
         f = ci.methods["Assemble"]
         r2.instance(fn=f.qualname)
+        from ..flow import Locals
+
+        L = Locals(f.node)
         csr = [n for n in ast.walk(f.node) if isinstance(n, ast.Call) and (dotted(n.func) or "").endswith("csr_matrix")]
         ok = False
         detail = ""
-        if csr and csr[0].args and isinstance(csr[0].args[0], ast.Tuple):
-            vals, idx = csr[0].args[0].elts
-            if isinstance(idx, ast.Tuple) and len(idx.elts) == 2:
-                def origin(e):
-                    if isinstance(e, ast.Name):
-                        for a in ast.walk(f.node):
-                            if isinstance(a, ast.Assign) and any(isinstance(t, ast.Name) and t.id == e.id for t in a.targets):
-                                return norm_text(a.value)
-                    return norm_text(e)
-                ro, co, vo = origin(idx.elts[0]), origin(idx.elts[1]), origin(vals.func.value if isinstance(vals, ast.Call) and isinstance(vals.func, ast.Attribute) else vals)
-                rows_ok = want_rows + "(dof_n)" in ro and "ravel()" in ro
+        if csr and csr[0].args:
+            a0 = L.resolve(csr[0].args[0])
+            if isinstance(a0, ast.Tuple) and len(a0.elts) == 2 and isinstance(L.resolve(a0.elts[1]), ast.Tuple):
+                vals, idx = a0.elts[0], L.resolve(a0.elts[1])
+                vo, ro, co = L.text(vals), L.text(idx.elts[0]), L.text(idx.elts[1])
+                rows_ok = f".{want_rows}(" in ro and ro.endswith(".ravel()")
                 if want_cols == "zeros":
                     cols_ok = co.startswith("np.zeros_like(") or co.startswith("np.zeros(")
                 else:
-                    cols_ok = want_cols + "(dof_n)" in co and "ravel()" in co
-                vals_ok = "Integrate_e(" in vo and "ravel()" in vo
+                    cols_ok = f".{want_cols}(" in co and co.endswith(".ravel()")
+                vals_ok = ".Integrate_e(" in vo and ".ravel()" in vo
                 ok = rows_ok and cols_ok and vals_ok
                 detail = f"values <- {vo}; rows <- {ro}; cols <- {co}"
         if ok:
